@@ -261,6 +261,31 @@ def run(ctx: Ctx):
     if all(x.startswith("EXC:") for x in mixed[0][:24]):
         raise Machinery("mixed programs: every mixed list was refused (vacuous)")
 
+    # ------------------------------------------------------------- InvSwap on names that a "smarter" sort might consider equal
+    # (zero padding, digit runs, case, accents, punctuation): swapping two insertions never changes the sorted output
+    tie = ["X-ROOM-1", "X-ROOM-01", "X-ROOM-001", "X-ITEM-2", "X-ITEM-10", "X-ITEM-010", "X-E", "X-\u00c9", "X-E2", "X_1", "X.1", "X-1", "X--1", "X-A-B", "X-AB"]
+    for i, a in enumerate(tie):
+        for b in tie[i + 1:]:
+            outs = []
+            for order in ((a, b), (b, a)):
+                e = Event()
+                e.add("uid", "1")
+                for nm in order:
+                    try:
+                        e.add(nm, "v-" + nm)
+                    except Exception:   # noqa: BLE001
+                        pass
+                e.add("summary", "s")
+                try:
+                    outs.append(e.to_ical())
+                except Exception as x:   # noqa: BLE001
+                    outs.append(type(x).__name__.encode())
+            ctx.evaluations += 1
+            ctx.case(("tie", a, b), True)
+            if outs[0] != outs[1]:
+                ctx.fail("P:C10:sorted-order", {"names": [a, b], "what": "sorted output depends on the insertion order of two names"},
+                         outs[0].decode("utf-8", "replace")[:200], outs[1].decode("utf-8", "replace")[:200])
+
     # ------------------------------------------------------------- purity and determinism on PARSED and hand-assembled trees
     # (values that did not pass through add(): parsed without a VALUE parameter, stored by item assignment, one value
     #  object under two properties, one component object attached twice)
